@@ -50,6 +50,12 @@ def build(case):
         kex.append(other)
     enc = [FILL_ENC] + list(ch) + list(cb)
     mac = [FILL_MAC] + list(et)
+    if ch and ch[0] in H.master_db()['mac']:
+        mac.append(ch[0])            # the database also knows this name as a MAC; a MAC of that name is not an encrypt-then-MAC MAC
+    if et and len(et) == 2:
+        enc.append(et[0])            # an (unknown) cipher that merely carries an ETM MAC's name
+    if cb and len(cb) == 2:
+        mac.append(cb[0])            # and a MAC that carries a CBC cipher's name
     return kex, enc, mac
 
 
@@ -86,7 +92,7 @@ def check_case(case, st):
             for cat in ('kex', 'key', 'enc', 'mac'):
                 for a in rep.algs[cat]:
                     if any(T.TERRAPIN_NOTE in t for _l, t in a['notes']):
-                        flagged.append(a['name'])
+                        flagged.append((cat, a['name']))
                         if not any(l == 'warn' and T.TERRAPIN_NOTE in t for l, t in a['notes']):
                             problems.append(('terrapin-note-not-warning:%s' % kind(a['name']), a['name']))
             for n in rep.nfo:
@@ -105,7 +111,7 @@ def check_case(case, st):
                 for e in doc[cat]:
                     notes = e.get('notes', {})
                     if any(T.TERRAPIN_NOTE in t for lv in notes for t in notes[lv]):
-                        flagged.append(e['algorithm'])
+                        flagged.append((cat, e['algorithm']))
             for n in doc.get('additional_notes', []):
                 k = n.find('vulnerable SSH channels with this target: ')
                 if k >= 0:
@@ -114,11 +120,11 @@ def check_case(case, st):
             for lvl, acts in doc.get('recommendations', {}).items():
                 for cat, lst in acts.get('add', {}).items():
                     added += [x['name'] for x in lst]
-        exp_flagged = [] if has_marker else V
+        exp_flagged = [] if has_marker else [('enc', n) for n in v_enc] + [('mac', n) for n in v_mac]
         exp_noted = V if (has_marker and V) else None
         if sorted(flagged) != sorted(exp_flagged):
-            miss = [n for n in exp_flagged if n not in flagged]
-            extra = [n for n in flagged if n not in exp_flagged]
+            miss = [n for c, n in exp_flagged if (c, n) not in flagged]
+            extra = ['%s(as %s)' % (n, c) if (('enc' if c == 'mac' else 'mac'), n) in exp_flagged else n for c, n in flagged if (c, n) not in exp_flagged]
             for n in miss:
                 problems.append(('missing-warning:%s:%s' % (fmt, n if kind(n) == 'db' else kind(n)),
                                  'expected Terrapin warning on %s; flagged=%s' % (n, flagged)))
